@@ -195,3 +195,79 @@ def enum_method_results(ctx, tbl, fn, inputs):
 
 
 _FALLTHROUGH = object()
+
+
+def fragment_size_redefinitions(ctx, fn):
+    """The write-fragment size is defined once as the per-fragment capacity (D4.4 checks that definition).  Every further
+    definition of the variable is judged here.  Returns [(verdict, node, message)] with verdict in ok / violation / undecided:
+      * a definition placed after the generator that slices the value was created changes the lazily evaluated slice width
+        but not the eagerly evaluated range() stride -> the fragments no longer tile the value (violation);
+      * before the generator: `min(size, ..)` and `size - size % k` under a dominating `k < size` guard only lower the size (ok);
+        `max(.., x)` with an argument not bounded by the size can exceed the capacity (violation); anything else undecided."""
+    from ..linexpr import atom_name, cmp_norm, lin
+
+    f = fn.node
+    gens = [n for n in walk(f) if isinstance(n, (ast.GeneratorExp, ast.ListComp)) and isinstance(n.elt, ast.Subscript) and isinstance(n.elt.slice, ast.Slice)]
+    if len(gens) != 1:
+        return [("undecided", f, "slicing generator not found")]
+    ge = gens[0]
+    it = ge.generators[0].iter
+    if not (isinstance(it, ast.Call) and call_name(it) == "range" and len(it.args) == 3):
+        return [("undecided", ge, "stride is not range(0, len, size)")]
+    size = atom_name(it.args[2])
+    gen_stmt = ge
+    while not isinstance(gen_stmt, ast.stmt):
+        gen_stmt = getattr(gen_stmt, "_parent")
+    lazy = isinstance(ge, ast.GeneratorExp)
+    defs = [n for n in walk(f) if (isinstance(n, ast.Assign) and any(atom_name(t) == size for t in n.targets)) or (isinstance(n, ast.AugAssign) and atom_name(n.target) == size)]
+    defs.sort(key=lambda n: n.lineno)
+    out = []
+    g = ctx.cfg(f)
+    for d in defs[1:] if defs else []:
+        if d.lineno > gen_stmt.lineno:
+            if lazy:
+                out.append(("violation", d, f"`{ast.unparse(d)}` changes `{size}` after the generator `{ast.unparse(ge)[:60]}...` was created: range() took the old stride, the lazily evaluated slice takes the new width - bytes between them are never sent and the offsets drift"))
+            else:
+                out.append(("ok", d, "the slices were already materialised"))
+            continue
+        # value in terms of the previous size
+        if isinstance(d, ast.AugAssign):
+            expr = ast.BinOp(left=ast.Name(id=size, ctx=ast.Load()), op=d.op, right=d.value)
+        else:
+            expr = d.value
+        if isinstance(expr, ast.Call) and call_name(expr) == "min" and any(atom_name(a) == size for a in expr.args):
+            out.append(("ok", d, "min(size, ...) only lowers the fragment size"))
+            continue
+        if isinstance(expr, ast.Call) and call_name(expr) == "max":
+            unbounded = [a for a in expr.args if atom_name(a) != size and not (lin(a) is not None and lin(a).terms.get(size) == 1 and all(v <= 0 for k, v in lin(a).terms.items() if k != size) and lin(a).const <= 0)]
+            inner_ok = [a for a in expr.args if a not in unbounded]
+            if unbounded:
+                out.append(("violation", d, f"`{ast.unparse(d)}` raises `{size}` to at least `{ast.unparse(unbounded[0])}`, which is not bounded by the per-fragment capacity: such a fragment exceeds the connection size"))
+                continue
+        L = lin(expr)
+        if L is not None and L.terms.get(size) == 1 and L.const == 0 and len(L.terms) == 2:
+            other = [k for k in L.terms if k != size][0]
+            if L.terms[other] == -1 and other.startswith(f"({size})%"):
+                out.append(("ok", d, "size - size % k with constant k only lowers the fragment size"))
+                continue
+        if isinstance(expr, ast.BinOp) and isinstance(expr.op, ast.Sub) and atom_name(expr.left) == size and isinstance(expr.right, ast.BinOp) and isinstance(expr.right.op, ast.Mod) and atom_name(expr.right.left) == size:
+            k = atom_name(expr.right.right)
+            nodes = g.nodes_of(d)
+            guarded = False
+            for t in g.nodes:
+                if t.kind == "test" and nodes and g.branch_dominates(t, True, nodes[0]):
+                    conj = t.ast.values if isinstance(t.ast, ast.BoolOp) and isinstance(t.ast.op, ast.And) else [t.ast]
+                    for c in conj:
+                        parts = []
+                        if isinstance(c, ast.Compare):
+                            left = c.left
+                            for op, right in zip(c.ops, c.comparators):
+                                parts.append((left, op, right))
+                                left = right
+                        for a, op, b in parts:
+                            if (atom_name(a) == k and atom_name(b) == size and isinstance(op, (ast.Lt, ast.LtE))) or (atom_name(a) == size and atom_name(b) == k and isinstance(op, (ast.Gt, ast.GtE))):
+                                guarded = True
+            out.append(("ok", d, f"rounding down to a multiple of {k} under `{k} < {size}`") if guarded else ("undecided", d, f"`{ast.unparse(d)}` rounds the size down to a multiple of `{k}` without a dominating `{k} < {size}` test (a zero size stops the tiling)"))
+            continue
+        out.append(("undecided", d, f"`{ast.unparse(d)}` redefines the fragment size in a form that is not recognised as lowering it"))
+    return out
